@@ -1,10 +1,526 @@
-(* Lemmas for C28 *)
+(* Lemmas for C28: peersync store / handler / poller / compatibility. *)
 From Coq Require Import String Ascii ZArith Bool Lia List.
 From PS Require Import Base.Corr Gen.ConstsPeerSync Model.PeerSync Model.C28Corr.
 Import ListNotations.
 Open Scope Z_scope.
 
+(* ---------- constants ---------- *)
 Lemma gen_peersync_constants :
   ps_poller_timeout = ps_cleanup_timeout /\ ps_poller_request_interval = ps_request_poll_interval /\
-  ps_local_version = ps_protocol_version /\ ps_protocol_version <> 0.
-Proof. repeat split; try reflexivity. discriminate. Qed.
+  ps_local_version = ps_protocol_version /\ ps_protocol_version <> 0 /\
+  0 < ps_cleanup_timeout <= max_i64 /\ 0 < ps_request_poll_interval <= max_i64.
+Proof. repeat split; try reflexivity; discriminate. Qed.
+
+(* ---------- store ---------- *)
+Definition keys (st : store) : list string := map fst st.
+Definition has_key (k : string) (st : store) : Prop := In k (keys st).
+
+Lemma eqb_sym_s a b : String.eqb a b = String.eqb b a.
+Proof. apply String.eqb_sym. Qed.
+
+Lemma st_get_none_iff k st : st_get k st = None <-> ~ has_key k st.
+Proof.
+  unfold has_key, keys. induction st as [|[k' v] r IH]; simpl.
+  - tauto.
+  - destruct (String.eqb_spec k k') as [->|Hne].
+    + split; [discriminate|]. intros H; exfalso; apply H; auto.
+    + rewrite IH. split; intros H; [intros [E|E]; [congruence|tauto]|tauto].
+Qed.
+
+Lemma st_get_some_has_key k st r : st_get k st = Some r -> has_key k st.
+Proof.
+  intros H. destruct (in_dec string_dec k (keys st)) as [i|n]; [exact i|].
+  apply st_get_none_iff in n. congruence.
+Qed.
+
+Lemma st_get_in k st r : st_get k st = Some r -> In (k, r) st.
+Proof.
+  induction st as [|[k' v] rest IH]; simpl; [discriminate|].
+  destruct (String.eqb_spec k k') as [->|Hne]; intros H.
+  - inversion H; subst; auto.
+  - auto.
+Qed.
+
+Lemma in_st_get_nodup k r st : NoDup (keys st) -> In (k, r) st -> st_get k st = Some r.
+Proof.
+  unfold keys. induction st as [|[k' v] rest IH]; simpl; intros Hnd Hin; [tauto|].
+  inversion Hnd as [|? ? Hni Hnd']; subst.
+  destruct Hin as [E|Hin].
+  - inversion E; subst. rewrite String.eqb_refl. reflexivity.
+  - destruct (String.eqb_spec k k') as [->|Hne].
+    + exfalso. apply Hni. apply (in_map fst) in Hin. exact Hin.
+    + auto.
+Qed.
+
+Lemma keys_replace k v st : keys (st_replace k v st) = keys st.
+Proof.
+  unfold keys. induction st as [|[k' v'] r IH]; simpl; [reflexivity|].
+  destruct (String.eqb_spec k k') as [->|Hne]; simpl; [reflexivity|]. now rewrite IH.
+Qed.
+
+Lemma in_keys_insert x k v st : In x (keys (st_insert k v st)) <-> x = k \/ In x (keys st).
+Proof.
+  unfold keys. induction st as [|[k' v'] r IH]; simpl.
+  - intuition.
+  - destruct (String.ltb k k'); simpl; [intuition|]. rewrite IH. intuition.
+Qed.
+
+Lemma nodup_insert k v st : ~ In k (keys st) -> NoDup (keys st) -> NoDup (keys (st_insert k v st)).
+Proof.
+  unfold keys. induction st as [|[k' v'] r IH]; simpl; intros Hni Hnd.
+  - constructor; [simpl; tauto|constructor].
+  - destruct (String.ltb k k'); simpl.
+    + constructor; [simpl; tauto|exact Hnd].
+    + inversion Hnd as [|? ? Hni' Hnd']; subst. constructor.
+      * intros Hin. apply (in_keys_insert k' k v r) in Hin. destruct Hin as [->|Hin]; tauto.
+      * apply IH; tauto.
+Qed.
+
+Lemma has_key_put x k v st : has_key x (st_put k v st) <-> x = k \/ has_key x st.
+Proof.
+  unfold st_put, has_key. destruct (st_get k st) eqn:E.
+  - rewrite keys_replace. apply st_get_some_has_key in E. unfold has_key in E.
+    split; [auto|]. intros [->|H]; auto.
+  - apply in_keys_insert.
+Qed.
+
+Lemma nodup_put k v st : NoDup (keys st) -> NoDup (keys (st_put k v st)).
+Proof.
+  unfold st_put. destruct (st_get k st) eqn:E; intros H.
+  - now rewrite keys_replace.
+  - apply nodup_insert; [|exact H]. now apply st_get_none_iff.
+Qed.
+
+Lemma st_get_replace_same k v st : has_key k st -> st_get k (st_replace k v st) = Some v.
+Proof.
+  unfold has_key, keys. induction st as [|[k' v'] r IH]; simpl; [tauto|].
+  destruct (String.eqb_spec k k') as [->|Hne]; simpl.
+  - now rewrite String.eqb_refl.
+  - intros [E|H]; [congruence|]. destruct (String.eqb_spec k k'); [congruence|auto].
+Qed.
+
+Lemma st_get_replace_other k x v st : x <> k -> st_get x (st_replace k v st) = st_get x st.
+Proof.
+  intros Hne. induction st as [|[k' v'] r IH]; simpl; [reflexivity|].
+  destruct (String.eqb_spec k k') as [->|Hne']; simpl.
+  - destruct (String.eqb_spec x k'); [congruence|reflexivity].
+  - now rewrite IH.
+Qed.
+
+Lemma st_get_insert_same k v st : st_get k st = None -> st_get k (st_insert k v st) = Some v.
+Proof.
+  induction st as [|[k' v'] r IH]; simpl.
+  - now rewrite String.eqb_refl.
+  - destruct (String.eqb_spec k k') as [->|Hne]; [discriminate|]. intros H.
+    destruct (String.ltb k k'); simpl.
+    + now rewrite String.eqb_refl.
+    + destruct (String.eqb_spec k k'); [congruence|auto].
+Qed.
+
+Lemma st_get_insert_other k x v st : x <> k -> st_get x (st_insert k v st) = st_get x st.
+Proof.
+  intros Hne. induction st as [|[k' v'] r IH]; simpl.
+  - destruct (String.eqb_spec x k); [congruence|reflexivity].
+  - destruct (String.ltb k k'); simpl.
+    + destruct (String.eqb_spec x k); [congruence|reflexivity].
+    + now rewrite IH.
+Qed.
+
+Lemma st_get_put_same k v st : st_get k (st_put k v st) = Some v.
+Proof.
+  unfold st_put. destruct (st_get k st) eqn:E.
+  - apply st_get_replace_same. eapply st_get_some_has_key; eauto.
+  - now apply st_get_insert_same.
+Qed.
+
+Lemma st_get_put_other k x v st : x <> k -> st_get x (st_put k v st) = st_get x st.
+Proof.
+  intros H. unfold st_put. destruct (st_get k st).
+  - now apply st_get_replace_other.
+  - now apply st_get_insert_other.
+Qed.
+
+Lemma has_key_del x k st : has_key x (st_del k st) <-> x <> k /\ has_key x st.
+Proof.
+  unfold has_key, keys, st_del. induction st as [|[k' v'] r IH]; simpl; [tauto|].
+  destruct (String.eqb_spec k k') as [->|Hne]; simpl.
+  - rewrite IH. intuition congruence.
+  - rewrite IH. intuition congruence.
+Qed.
+
+Lemma nodup_del k st : NoDup (keys st) -> NoDup (keys (st_del k st)).
+Proof.
+  unfold keys, st_del. induction st as [|[k' v'] r IH]; simpl; intros H; [constructor|].
+  inversion H as [|? ? Hni Hnd]; subst.
+  destruct (String.eqb_spec k k') as [->|Hne]; simpl; [auto|].
+  constructor; [|auto]. intros Hin. apply Hni.
+  apply (has_key_del k' k r) in Hin. apply Hin.
+Qed.
+
+Lemma st_get_del_other k x st : x <> k -> st_get x (st_del k st) = st_get x st.
+Proof.
+  intros Hne. unfold st_del. induction st as [|[k' v'] r IH]; simpl; [reflexivity|].
+  destruct (String.eqb_spec k k') as [->|Hne']; simpl.
+  - destruct (String.eqb_spec x k'); [congruence|auto].
+  - now rewrite IH.
+Qed.
+
+Lemma mem_true_iff k l : mem k l = true <-> In k l.
+Proof.
+  unfold mem. rewrite existsb_exists. split.
+  - intros (x & Hin & E). apply String.eqb_eq in E. now subst.
+  - intros H. exists k. split; [exact H|apply String.eqb_refl].
+Qed.
+
+Lemma mem_false_iff k l : mem k l = false <-> ~ In k l.
+Proof. rewrite <- mem_true_iff. destruct (mem k l); split; congruence. Qed.
+
+(* ---------- saturating subtraction ---------- *)
+Lemma sat_sub_gt now t x : min_i64 <= x -> x < sat_sub now t -> x < now - t.
+Proof. unfold sat_sub, min_i64, max_i64. intros Hx. destruct (Z.ltb_spec (now - t) (-9223372036854775808)); [lia|].
+  destruct (Z.ltb_spec 9223372036854775807 (now - t)); lia. Qed.
+
+Lemma sat_sub_ge now t x : x <= max_i64 -> min_i64 < x -> x <= sat_sub now t -> x <= now - t.
+Proof. unfold sat_sub, min_i64, max_i64. intros Hx Hx'. destruct (Z.ltb_spec (now - t) (-9223372036854775808)); [lia|].
+  destruct (Z.ltb_spec 9223372036854775807 (now - t)); lia. Qed.
+
+Lemma sat_sub_exact now t : min_i64 <= now - t <= max_i64 -> sat_sub now t = now - t.
+Proof. unfold sat_sub, min_i64, max_i64. intros H. destruct (Z.ltb_spec (now - t) (-9223372036854775808)); [lia|].
+  destruct (Z.ltb_spec 9223372036854775807 (now - t)); lia. Qed.
+
+(* ---------- record <-> peer round trip ---------- *)
+Lemma new_asset_asset_string a : new_asset (asset_string a) = Some a.
+Proof. destruct a; reflexivity. Qed.
+
+Lemma parse_assets_canonical l : parse_assets (map asset_string l) = Some l.
+Proof. induction l as [|a r IH]; simpl; [reflexivity|]. rewrite new_asset_asset_string, IH. reflexivity. Qed.
+
+Definition cap_wf (c : capability) : Prop :=
+  rate_ok (c_bi c) = true /\ rate_ok (c_bo c) = true /\ rate_ok (c_li c) = true /\ rate_ok (c_lo c) = true.
+
+Lemma to_capability_wf sn c : to_capability sn = Some c -> cap_wf c.
+Proof.
+  unfold to_capability, cap_wf. destruct (parse_assets (sn_assets sn)); [|discriminate].
+  destruct (rate_ok (sn_bi sn)) eqn:E1; [|discriminate].
+  destruct (rate_ok (sn_bo sn)) eqn:E2; [|discriminate].
+  destruct (rate_ok (sn_li sn)) eqn:E3; [|discriminate].
+  destruct (rate_ok (sn_lo sn)) eqn:E4; [|discriminate].
+  intros H; inversion H; subst; simpl. auto.
+Qed.
+
+Lemma to_capability_snapshot_of_cap c : cap_wf c -> to_capability (snapshot_of_cap c) = Some c.
+Proof.
+  intros (H1 & H2 & H3 & H4). unfold to_capability, snapshot_of_cap; simpl.
+  rewrite parse_assets_canonical, H1, H2, H3, H4. destruct c; reflexivity.
+Qed.
+
+(* has_capability_data only looks at the numbers and at emptiness of the asset list *)
+Lemma has_data_snapshot_of_cap sn c :
+  to_capability sn = Some c -> has_capability_data (snapshot_of_cap c) = has_capability_data sn.
+Proof.
+  unfold to_capability. destruct (parse_assets (sn_assets sn)) as [al|] eqn:Ea; [|discriminate].
+  destruct (rate_ok (sn_bi sn)); [|discriminate]. destruct (rate_ok (sn_bo sn)); [|discriminate].
+  destruct (rate_ok (sn_li sn)); [|discriminate]. destruct (rate_ok (sn_lo sn)); [|discriminate].
+  intros H; inversion H; subst; clear H. unfold has_capability_data, snapshot_of_cap; simpl.
+  destruct (sn_assets sn) as [|a r]; simpl in *.
+  - inversion Ea; subst. reflexivity.
+  - destruct (new_asset a); [|discriminate]. destruct (parse_assets r); [|discriminate].
+    inversion Ea; subst. reflexivity.
+Qed.
+
+Definition status_ok (p : peer) : Prop := p_status p <> ""%string.
+
+Definition peer_wf (p : peer) : Prop :=
+  status_ok p /\ match p_cap p with Some c => cap_wf c | None => True end.
+
+(* an all-zero capability is persisted as "no capability data" *)
+Definition norm_peer (p : peer) : peer :=
+  match p_cap p with
+  | Some c => if has_capability_data (snapshot_of_cap c) then p
+              else Peer (p_address p) None (p_status p) (p_last_poll p) (p_last_seen p)
+  | None => p
+  end.
+
+Lemma status_nonempty_eqb s : s <> ""%string -> String.eqb s "" = false.
+Proof. intros H. now apply String.eqb_neq. Qed.
+
+Lemma save_reload p : peer_wf p -> to_peer (peer_to_record p) = Some (norm_peer p).
+Proof.
+  intros [Hs Hc]. unfold to_peer, peer_to_record, norm_peer; simpl.
+  rewrite (status_nonempty_eqb _ Hs). destruct p as [a [c|] st lp ls]; simpl in *.
+  - destruct (has_capability_data (snapshot_of_cap c)) eqn:E; [|reflexivity].
+    rewrite to_capability_snapshot_of_cap by exact Hc. reflexivity.
+  - reflexivity.
+Qed.
+
+Lemma to_peer_wf r p : to_peer r = Some p -> peer_wf p /\ norm_peer p = p.
+Proof.
+  unfold to_peer, peer_wf, status_ok, norm_peer.
+  assert (Hst : (if String.eqb (r_status r) "" then ps_status_unknown else r_status r) <> ""%string).
+  { destruct (String.eqb_spec (r_status r) ""); [discriminate|assumption]. }
+  destruct (has_capability_data (r_snap r)) eqn:Hd.
+  - destruct (to_capability (r_snap r)) as [c|] eqn:Hc; [|discriminate].
+    intros H; inversion H; subst; simpl. split; [split; [exact Hst|eapply to_capability_wf; eauto]|].
+    rewrite (has_data_snapshot_of_cap _ _ Hc), Hd. reflexivity.
+  - intros H; inversion H; subst; simpl. auto.
+Qed.
+
+(* a loaded peer, saved again, reloads to itself: stored records reload unchanged *)
+Lemma reload_fixpoint r p : to_peer r = Some p -> to_peer (peer_to_record p) = Some p.
+Proof.
+  intros H. destruct (to_peer_wf _ _ H) as [Hwf Hn]. rewrite save_reload by exact Hwf. now rewrite Hn.
+Qed.
+
+(* and the record written is itself stable under load + save *)
+Lemma record_fixpoint r p : to_peer r = Some p ->
+  forall p', to_peer (peer_to_record p) = Some p' -> peer_to_record p' = peer_to_record p.
+Proof. intros H p' H'. rewrite (reload_fixpoint _ _ H) in H'. now inversion H'. Qed.
+
+(* dropping an all-zero capability is invisible to every reader *)
+Lemma norm_peer_observers p now timeout :
+  is_expired now timeout (norm_peer p) = is_expired now timeout p /\
+  should_poll now (norm_peer p) = should_poll now p /\
+  capability_is_stale now timeout (norm_peer p) = capability_is_stale now timeout p /\
+  is_compatible_with ps_local_version (norm_peer p) = is_compatible_with ps_local_version p.
+Proof.
+  unfold norm_peer. destruct p as [a [c|] st lp ls]; simpl; [|auto].
+  destruct (has_capability_data (snapshot_of_cap c)) eqn:E; [auto|].
+  repeat split. unfold is_compatible_with; simpl.
+  unfold has_capability_data, snapshot_of_cap in E; simpl in E.
+  destruct (Z.eqb_spec (c_version c) 0) as [->|]; [reflexivity|discriminate].
+Qed.
+
+(* ---------- compatibility ---------- *)
+Lemma has_compatible_peer_iff s id :
+  has_compatible_peer s id = true <->
+  valid_peer_id id = true /\
+  exists r p c, st_get id (s_store s) = Some r /\ to_peer r = Some p /\ p_cap p = Some c /\
+                c_version c = ps_protocol_version.
+Proof.
+  unfold has_compatible_peer. destruct (valid_peer_id id); [|split; [discriminate|intros [H _]; discriminate]].
+  destruct (st_get id (s_store s)) as [r|]; [|split; [discriminate|intros (_ & r & p & c & H & _); discriminate]].
+  destruct (to_peer r) as [p|] eqn:Et; [|split; [discriminate|intros (_ & r' & p & c & H & H' & _); inversion H; subst; congruence]].
+  unfold is_compatible_with. destruct (p_cap p) as [c|] eqn:Ec.
+  - split.
+    + intros H. split; [reflexivity|]. exists r, p, c. repeat split; auto. apply Z.eqb_eq in H. exact H.
+    + intros (_ & r' & p' & c' & H1 & H2 & H3 & H4). inversion H1; subst.
+      assert (p' = p) by congruence; subst.
+      assert (c' = c) by congruence; subst. apply Z.eqb_eq. exact H4.
+  - split; [discriminate|]. intros (_ & r' & p' & c' & H1 & H2 & H3 & _). inversion H1; subst.
+    assert (p' = p) by congruence; subst. congruence.
+Qed.
+
+(* ---------- message handler ---------- *)
+Definition state_after (x : state * list sent * Z) : state := fst (fst x).
+Definition sends_of (x : state * list sent * Z) : list sent := snd (fst x).
+
+(* findPeer: the stored peer, a fresh one when absent, None when the record cannot be read *)
+Definition find_peer (s : state) (k : string) : option peer :=
+  match st_get k (s_store s) with None => Some new_peer | Some r => to_peer r end.
+
+Definition is_capability_message (ty : Z) : Prop := ty = ps_msgtype_poll \/ ty = ps_msgtype_request_poll.
+
+Definition updated_peer (now : Z) (prev : peer) (polled : capability) : peer :=
+  Peer (p_address prev) (Some (spec_capability (p_cap prev) polled)) ps_status_active (p_last_poll prev) (Some now).
+
+Lemma store_capability_message_accepts now s from sn polled prev :
+  to_capability sn = Some polled -> mem from (s_susp s) = false -> find_peer s from = Some prev ->
+  store_capability_message now s from (Some sn) =
+    st_put from (peer_to_record (updated_peer now prev polled)) (s_store s).
+Proof.
+  unfold store_capability_message, find_peer, updated_peer. intros -> -> Hf. rewrite Hf.
+  destruct (p_cap prev); reflexivity.
+Qed.
+
+Lemma handle_message_store now s from ty payload :
+  s_store (fst (handle_message now s from ty payload)) =
+  if ((ty =? ps_msgtype_poll) || (ty =? ps_msgtype_request_poll)) && negb (mem from (s_susp s))
+  then store_capability_message now s from payload else s_store s.
+Proof.
+  unfold handle_message. destruct (ty =? ps_msgtype_poll) eqn:E1; simpl.
+  - destruct (mem from (s_susp s)) eqn:Em; simpl; [|reflexivity].
+    unfold store_capability_message. destruct payload as [sn|]; [|reflexivity].
+    destruct (to_capability sn); [|reflexivity]. now rewrite Em.
+  - destruct (ty =? ps_msgtype_request_poll) eqn:E2; simpl; [|reflexivity].
+    destruct (mem from (s_susp s)); reflexivity.
+Qed.
+
+Lemma capability_message_eqb ty : is_capability_message ty ->
+  (ty =? ps_msgtype_poll) || (ty =? ps_msgtype_request_poll) = true.
+Proof. intros [->| ->]; reflexivity. Qed.
+
+Lemma handle_message_accepts now s from ty sn polled prev :
+  is_capability_message ty -> to_capability sn = Some polled ->
+  mem from (s_susp s) = false -> find_peer s from = Some prev ->
+  let st' := s_store (fst (handle_message now s from ty (Some sn))) in
+  st_get from st' = Some (peer_to_record (updated_peer now prev polled)) /\
+  (forall k, k <> from -> st_get k st' = st_get k (s_store s)).
+Proof.
+  intros Hty Hc Hs Hf st'. subst st'. rewrite handle_message_store, (capability_message_eqb _ Hty), Hs.
+  cbn [negb andb].
+  rewrite (store_capability_message_accepts _ _ _ _ _ _ Hc Hs Hf). split.
+  - apply st_get_put_same.
+  - intros k Hk. now apply st_get_put_other.
+Qed.
+
+Lemma handle_message_rejects now s from ty payload :
+  ~ is_capability_message ty \/ payload = None \/
+  (exists sn, payload = Some sn /\ to_capability sn = None) \/
+  mem from (s_susp s) = true \/ find_peer s from = None ->
+  s_store (fst (handle_message now s from ty payload)) = s_store s.
+Proof.
+  rewrite handle_message_store. intros H.
+  destruct (((ty =? ps_msgtype_poll) || (ty =? ps_msgtype_request_poll)) && negb (mem from (s_susp s))) eqn:E; [|reflexivity].
+  apply andb_true_iff in E. destruct E as [E1 E2]. apply negb_true_iff in E2.
+  unfold store_capability_message.
+  destruct H as [H|[->|[(sn & -> & ->)|[H|H]]]]; try reflexivity.
+  - exfalso. apply H. apply orb_true_iff in E1. destruct E1 as [E|E]; apply Z.eqb_eq in E; [left|right]; exact E.
+  - congruence.
+  - destruct payload as [sn|]; [|reflexivity]. destruct (to_capability sn); [|reflexivity].
+    rewrite E2. unfold find_peer in H. destruct (st_get from (s_store s)); [|discriminate]. now rewrite H.
+Qed.
+
+(* a request poll from a non-suspicious peer is always answered with a poll *)
+Lemma handle_message_answer now s from ty payload :
+  snd (handle_message now s from ty payload) =
+  if (ty =? ps_msgtype_request_poll) && negb (mem from (s_susp s)) then [do_send s from ps_msgtype_poll] else [].
+Proof.
+  unfold handle_message. destruct (ty =? ps_msgtype_poll) eqn:E1.
+  - apply Z.eqb_eq in E1. subst. reflexivity.
+  - destruct (ty =? ps_msgtype_request_poll); [|reflexivity]. destruct (mem from (s_susp s)); reflexivity.
+Qed.
+
+(* what the stored record says after an accepted poll, read back *)
+Lemma updated_peer_reload now prev polled :
+  peer_wf prev -> cap_wf polled ->
+  to_peer (peer_to_record (updated_peer now prev polled)) = Some (norm_peer (updated_peer now prev polled)).
+Proof.
+  intros [Hs Hc] Hp. apply save_reload. split; [discriminate|]. simpl.
+  unfold spec_capability. destruct (p_cap prev) as [old|]; [|exact Hp].
+  destruct (c_version polled <? c_version old); assumption.
+Qed.
+
+(* ---------- history of polls: "most recent unless lower version" in closed form ---------- *)
+Fixpoint fold_polls (prev : option capability) (cs : list capability) : option capability :=
+  match cs with
+  | [] => prev
+  | c :: r => fold_polls (Some (spec_capability prev c)) r
+  end.
+
+Lemma fold_polls_some c cs : exists res, fold_polls (Some c) cs = Some res.
+Proof. revert c. induction cs as [|x r IH]; intros c; simpl; eauto. Qed.
+
+Lemma fold_polls_from_some c cs res :
+  fold_polls (Some c) cs = Some res ->
+  c_version c <= c_version res /\
+  (forall x, In x cs -> c_version x <= c_version res) /\
+  ((res = c /\ forall x, In x cs -> c_version x < c_version c) \/
+   (exists pre post, cs = pre ++ res :: post /\ forall x, In x post -> c_version x < c_version res)).
+Proof.
+  revert c. induction cs as [|x r IH]; intros c H; simpl in H.
+  - inversion H; subst. split; [lia|]. split; [intros x []|]. left. split; [reflexivity|intros x []].
+  - unfold spec_capability in H. destruct (Z.ltb_spec (c_version x) (c_version c)) as [Hlt|Hge].
+    + destruct (IH _ H) as (H1 & H2 & H3). split; [exact H1|]. split.
+      * intros y [->|Hy]; [lia|auto].
+      * destruct H3 as [[-> H3]|(pre & post & -> & H3)].
+        -- left. split; [reflexivity|]. intros y [->|Hy]; auto.
+        -- right. exists (x :: pre), post. split; [reflexivity|exact H3].
+    + destruct (IH _ H) as (H1 & H2 & H3). split; [lia|]. split.
+      * intros y [->|Hy]; [lia|auto].
+      * right. destruct H3 as [[-> H3]|(pre & post & -> & H3)].
+        -- exists [], r. split; [reflexivity|exact H3].
+        -- exists (x :: pre), post. split; [reflexivity|exact H3].
+Qed.
+
+(* consecutive accepted polls from one peer: the stored capability is the fold *)
+Fixpoint poll_ops (k : string) (l : list (Z * Z * snapshot)) : list (Z * op) :=
+  match l with
+  | [] => []
+  | (now, ty, sn) :: r => (now, OMsg k ty (Some sn)) :: poll_ops k r
+  end.
+
+Fixpoint polled_caps (l : list (Z * Z * snapshot)) : list capability :=
+  match l with
+  | [] => []
+  | (_, _, sn) :: r => match to_capability sn with Some c => c :: polled_caps r | None => polled_caps r end
+  end.
+
+(* valid poll: poll / request-poll type, payload that converts, version a uint64 *)
+Definition all_valid_polls (l : list (Z * Z * snapshot)) : Prop :=
+  Forall (fun x : Z * Z * snapshot =>
+            is_capability_message (snd (fst x)) /\ (0 <= sn_version (snd x)) /\ 
+            (exists c, to_capability (snd x) = Some c)) l.
+
+Lemma to_capability_version sn c : to_capability sn = Some c -> c_version c = sn_version sn.
+Proof.
+  unfold to_capability. destruct (parse_assets (sn_assets sn)); [|discriminate].
+  destruct (rate_ok (sn_bi sn)); [|discriminate]. destruct (rate_ok (sn_bo sn)); [|discriminate].
+  destruct (rate_ok (sn_li sn)); [|discriminate]. destruct (rate_ok (sn_lo sn)); [|discriminate].
+  intros H; inversion H; reflexivity.
+Qed.
+
+Lemma polled_caps_valid l : all_valid_polls l ->
+  Forall (fun c => 0 <= c_version c) (polled_caps l) /\ (l <> [] -> polled_caps l <> []).
+Proof.
+  induction 1 as [|[[now ty] sn] r (Hty & Hv & c & Hc) Hall [IH1 IH2]]; simpl.
+  - split; [constructor|congruence].
+  - simpl in Hc, Hv. rewrite Hc. split; [|discriminate]. constructor; [|exact IH1].
+    rewrite (to_capability_version _ _ Hc). exact Hv.
+Qed.
+
+Lemma fold_polls_drop_zero z cs :
+  c_version z = 0 -> Forall (fun c => 0 <= c_version c) cs -> cs <> [] ->
+  fold_polls (Some z) cs = fold_polls None cs.
+Proof.
+  intros Hz Hall Hne. destruct cs as [|c r]; [congruence|]. simpl. inversion Hall; subst.
+  unfold spec_capability. rewrite Hz. destruct (Z.ltb_spec (c_version c) 0); [lia|reflexivity].
+Qed.
+
+Lemma handle_message_keeps_susp now s from ty payload :
+  s_susp (fst (handle_message now s from ty payload)) = s_susp s.
+Proof.
+  unfold handle_message. destruct (ty =? ps_msgtype_poll); [reflexivity|].
+  destruct (ty =? ps_msgtype_request_poll); [|reflexivity]. destruct (mem from (s_susp s)); reflexivity.
+Qed.
+
+Lemma poll_history k l : all_valid_polls l -> l <> [] ->
+  forall s prev, mem k (s_susp s) = false -> find_peer s k = Some prev -> peer_wf prev ->
+  exists res last, fold_polls (p_cap prev) (polled_caps l) = Some res /\
+    st_get k (s_store (run s (poll_ops k l))) =
+      Some (peer_to_record (Peer (p_address prev) (Some res) ps_status_active (p_last_poll prev) (Some last))) /\
+    cap_wf res.
+Proof.
+  induction l as [|[[now ty] sn] r IH]; intros Hall Hne s prev Hs Hf Hwf; [congruence|].
+  inversion Hall as [|? ? (Hty & Hv & c & Hc) Hall']; subst. simpl in Hty, Hc, Hv.
+  simpl poll_ops. simpl polled_caps. rewrite Hc. simpl fold_polls. simpl run.
+  destruct (handle_message now s k ty (Some sn)) as [s1 ms] eqn:Eh. simpl.
+  pose proof (handle_message_accepts now s k ty sn c prev Hty Hc Hs Hf) as [Hget _].
+  rewrite Eh in Hget. simpl in Hget.
+  assert (Hs1 : mem k (s_susp s1) = false).
+  { pose proof (handle_message_keeps_susp now s k ty (Some sn)) as E. rewrite Eh in E. simpl in E. now rewrite E. }
+  assert (Hcw : cap_wf (spec_capability (p_cap prev) c)).
+  { unfold spec_capability. destruct Hwf as [_ Hwc]. destruct (p_cap prev) as [old|]; [|eapply to_capability_wf; eauto].
+    destruct (c_version c <? c_version old); [exact Hwc|eapply to_capability_wf; eauto]. }
+  destruct r as [|y r'].
+  - simpl. exists (spec_capability (p_cap prev) c), now. split; [reflexivity|]. split; [exact Hget|exact Hcw].
+  - set (up := updated_peer now prev c) in *.
+    assert (Hrel : to_peer (peer_to_record up) = Some (norm_peer up)).
+    { apply updated_peer_reload; [exact Hwf|eapply to_capability_wf; eauto]. }
+    assert (Hf1 : find_peer s1 k = Some (norm_peer up)).
+    { unfold find_peer. rewrite Hget. exact Hrel. }
+    assert (Hwf1 : peer_wf (norm_peer up)).
+    { destruct (to_peer_wf _ _ Hrel) as [H _]. exact H. }
+    destruct (IH Hall' ltac:(discriminate) s1 (norm_peer up) Hs1 Hf1 Hwf1) as (res & last & Hfold & Hst & Hres).
+    destruct (polled_caps_valid _ Hall') as [Hnn Hnon].
+    assert (Hnp : p_address (norm_peer up) = p_address prev /\ p_last_poll (norm_peer up) = p_last_poll prev /\
+                  fold_polls (p_cap (norm_peer up)) (polled_caps (y :: r')) =
+                  fold_polls (Some (spec_capability (p_cap prev) c)) (polled_caps (y :: r'))).
+    { unfold norm_peer. unfold up, updated_peer. cbn [p_cap p_address p_last_poll p_status p_last_seen].
+      destruct (has_capability_data (snapshot_of_cap (spec_capability (p_cap prev) c))) eqn:Ed;
+        cbn [p_cap p_address p_last_poll]; [auto|].
+      split; [reflexivity|]. split; [reflexivity|]. symmetry. apply fold_polls_drop_zero; [|exact Hnn|apply Hnon; discriminate].
+      unfold has_capability_data, snapshot_of_cap in Ed. cbn [sn_version] in Ed.
+      destruct (Z.eqb_spec (c_version (spec_capability (p_cap prev) c)) 0); [assumption|discriminate]. }
+    destruct Hnp as (Ha & Hl & Hfold'). rewrite Ha, Hl in Hst. rewrite Hfold' in Hfold.
+    exists res, last. split; [exact Hfold|]. split; [exact Hst|exact Hres].
+Qed.
